@@ -265,6 +265,10 @@ def stepLine (st : St) (ws : List String) : St × List String :=
         | some b => doOp st (.link a (some b))
         | none => bad
     | none => bad
+  | "connectm" :: a :: bs =>
+    match a.toNat?, nats bs with
+    | some a, some bs => doOp st (.connectMany a bs)
+    | _, _ => bad
   | ["connect", a, b] =>
     match a.toNat?, b.toNat? with
     | some a, some b => doOp st (.connect a b)
